@@ -1093,6 +1093,9 @@ class StepUpCounter(Logic):
         Constant(self, 'zero', 0, zero)
         
         if (inc is None):
+            # always counting
+            one = self.wire('one', 1)
+            Constant(self, 'one', 1, one)
             inc = one
         if (reset is None):
             reset = zero
